@@ -145,6 +145,96 @@ def job_add(ctx, mode, rep, unit, nlo, nhi, ranges=None, pins=None, contract=Tru
                    sample_every=97)
 
 
+def _zb(x):
+    """z3 Bool of a comparison result that may be a SymBool or a plain bool"""
+    if type(x) is core.SymBool:
+        return x.z3()
+    return z3.BoolVal(bool(x))
+
+
+def job_add_decimal(ctx, mode, rep, form, frac, unit, nlo, nhi, ranges=None, K=C.KWIDE):
+    """the decimal time-precision forms: hh,ii (hour + fraction, no minute / second) and hh:mm,nn (minute +
+    fraction, no second).  The fraction is a concrete dyadic number so that the rational proxies are exact;
+    the integer parts, the date, the offset and the amount are symbolic."""
+    data = ctx.data
+    C.set_mode(data, mode)
+    install_range_summary(data, mode)
+    per = {"hdec": 3600, "mdec": 60}[form]
+
+    def make(e):
+        p = C.point_input(e, data, "", rep, K=K, hmax=23)
+        if form == "hdec":
+            p._hour_of_day = p._hour_of_day + frac
+            p._minute_of_hour = p._second_of_minute = None
+        else:
+            p._minute_of_hour = p._minute_of_hour + frac
+            p._second_of_minute = None
+        return {"p": p, "n": e.var("n", nlo, nhi)}
+
+    def tsec(q):
+        t = q._hour_of_day * 3600
+        if q._minute_of_hour is not None:
+            t = t + q._minute_of_hour * 60
+        if q._second_of_minute is not None:
+            t = t + q._second_of_minute
+        return t
+
+    def body(i):
+        p, n = i["p"], i["n"]
+        core.ENG.assume(C.sym_valid(mode, rep, point_fields(p, rep)))
+        core.ENG.assume(bool(R.valid_tz(P, p._time_zone._hours, p._time_zone._minutes)))
+        d = data.Duration(**{unit: n})
+        dneg = data.Duration(**{unit: -n})
+        return {"r": p + d, "radd": d + p, "sub": p - dneg}
+
+    def same(a, b):
+        cs = []
+        for sl in DATE_SLOTS + TIME_SLOTS:
+            x, y = getattr(a, sl), getattr(b, sl)
+            if x is None or y is None:
+                if x is not y:
+                    return z3.BoolVal(False)
+                continue
+            cs.append(_zb(x == y))
+        return z3.And(cs)
+
+    def post(i, out):
+        if out[0] != "ok":
+            return [("no exception for a valid decimal-form point and exact duration", False)]
+        p, n, o = i["p"], i["n"], out[1]
+        r = o["r"]
+        if not isinstance(r, type(p)) or C.rep_of(r) != rep:
+            return [("keeps the date representation", False)]
+        if (r._minute_of_hour is None) != (p._minute_of_hour is None) or (r._second_of_minute is None) != (p._second_of_minute is None):
+            return [("keeps the time-precision form", False)]
+        ok_t = [_zb(r._hour_of_day >= 0), _zb(r._hour_of_day < 24)]
+        if r._minute_of_hour is not None:
+            ok_t += [_zb(r._minute_of_hour >= 0), _zb(r._minute_of_hour < 60)]
+        dd = C.m_daynum(mode, rep, C.fields_of(r, rep)) - C.m_daynum(mode, rep, C.fields_of(p, rep))
+        delta = tsec(r) - tsec(p) + dd * 86400 - n * MULT[unit]
+        return [("date inside its legal range", core.zbool(C.m_valid_date(mode, rep, C.fields_of(r, rep)))[0]),
+                ("0 <= h < 24 (and 0 <= m < 60)", z3.And(ok_t)),
+                ("keeps the UTC offset", C.z_same_zone(p, r)),
+                ("instant shifted by exactly the duration (exact rational arithmetic)", _zb(delta == 0)),
+                ("d + p == p + d", same(r, o["radd"])), ("p - (-d) == p + d", same(r, o["sub"]))]
+
+    def case_of(v, i):
+        kw = C.point_case(v, "", rep)
+        if form == "hdec":
+            kw.pop("minute_of_hour"), kw.pop("second_of_minute")
+            kw["hour_of_day_decimal"] = frac
+        else:
+            kw.pop("second_of_minute")
+            kw["minute_of_hour_decimal"] = frac
+        return {"check": "add-decimal", "mode": mode, "rep": rep, "p": kw, "unit": unit, "n": v["n"]}
+
+    return sym_run("add-decimal[%s,%s,%s+%s,%s,%d..%d,%s]" % (mode, rep, form, frac, unit, nlo, nhi, ranges),
+                   make, None, body, post, case_of, ranges=ranges,
+                   scenarios_z3=lambda i: {"decimal form, backwards over midnight": L(i["n"]) < 0,
+                                           "decimal form, forwards": L(i["n"]) > 0},
+                   bounds={"fraction": frac, "form": form, "amount": [nlo, nhi], "unit": unit}, sample_every=97)
+
+
 def job_add_multi(ctx, mode, rep, ranges=None, lim=None, K=C.KWIDE, pins=None):
     """all five exact units at once, small symbolic amounts"""
     data = ctx.data
@@ -208,7 +298,36 @@ def check_shift(data, mode, p, r, shift, what):
     return False, desc
 
 
+def _replay_decimal(case, data, mode):
+    from fractions import Fraction
+    p = C.build_point(data, case["p"])
+    n, unit = case["n"], case["unit"]
+    d = data.Duration(**{unit: n})
+    what = "%s + %s" % (C.describe_point(p), d)
+    try:
+        rs = {"p + d": p + d, "d + p": d + p, "p - (-d)": p - data.Duration(**{unit: -n})}
+    except Exception as exc:
+        return True, "%s raised %s: %s" % (what, type(exc).__name__, exc)
+    for k, r in rs.items():
+        desc = "%s: %s = %s" % (what, k, C.describe_point(r))
+        if C.rep_of(r) != C.rep_of(p):
+            return True, desc + " changes the date representation"
+        if (r._minute_of_hour is None) != (p._minute_of_hour is None) or (r._second_of_minute is None) != (p._second_of_minute is None):
+            return True, desc + " changes the time-precision form"
+        if not C.py_valid_date(mode, r) or not (0 <= r._hour_of_day < 24) or (
+                r._minute_of_hour is not None and not (0 <= r._minute_of_hour < 60)):
+            return True, desc + " has a field outside its legal range"
+        if (r._time_zone._hours, r._time_zone._minutes) != (p._time_zone._hours, p._time_zone._minutes):
+            return True, desc + " changes the UTC offset"
+        off = C.py_instant(mode, r) - (C.py_instant(mode, p) + n * MULT[unit])
+        if abs(off) > Fraction(1, 1000000):
+            return True, desc + " is off by %s s from the expected instant (tolerance 1 microsecond)" % float(off)
+    return False, what + " = " + C.describe_point(rs["p + d"])
+
+
 def _replay(case, data, mode):
+    if case["check"] == "add-decimal":
+        return _replay_decimal(case, data, mode)
     p = C.build_point(data, case["p"])
     if not C.py_valid_point(mode, p, allow24=True):
         return False, "input point invalid (precondition)"
@@ -272,6 +391,23 @@ def jobs(tier):
                 J.append(("job_add", dict(mode=mode, rep="week", unit="hours", nlo=-100, nhi=100, ranges={"W": w})))
         else:
             J.append(("job_add", dict(mode=mode, rep="week", unit="days", nlo=-20, nhi=20, ranges={"W": (50, 53)})))
+        # decimal time-precision forms (hh,ii and hh:mm,nn) with dyadic fractions
+        if th:
+            dec = [(rep, rg, form, frac, unit)
+                   for rep, rgs in (("ord", [None]), ("cal", [{"M": (1, 2)}, {"M": (3, 12)}]), ("week", [{"W": (1, 2)}, {"W": (3, 53)}]))
+                   for rg in rgs
+                   for form, frac in (("hdec", 0.25), ("hdec", 0.75), ("mdec", 0.5), ("hdec", 0.5), ("mdec", 0.25), ("mdec", 0.875))
+                   for unit in ("hours", "minutes", "seconds", "days")]
+        else:
+            dec = [("ord", None, form, frac, unit) for form, frac in (("hdec", 0.25), ("hdec", 0.75), ("mdec", 0.5))
+                   for unit in ("hours", "minutes", "seconds", "days")]
+            if greg:
+                dec += [(rep, rg, form, frac, unit)
+                        for rep, rg in (("cal", {"M": (1, 2)}), ("cal", {"M": (12, 12)}), ("week", {"W": (1, 1)}), ("week", {"W": (52, 53)}))
+                        for form, frac in (("hdec", 0.25), ("mdec", 0.5)) for unit in ("hours", "minutes")]
+        for rep, rg, form, frac, unit in dec:
+            lim = {"hours": 60, "minutes": 3000, "seconds": 90000, "days": 20 if rep == "week" else 40}[unit]
+            J.append(("job_add_decimal", dict(mode=mode, rep=rep, form=form, frac=frac, unit=unit, nlo=-lim, nhi=lim, ranges=rg)))
         if greg or th:
             lim = {"days": 1, "hours": 25, "minutes": 61, "seconds": 61}
             J.append(("job_add_multi", dict(mode=mode, rep="ord", lim=lim)))
@@ -306,14 +442,19 @@ INFO = {
                   "ordinal": "days +-800, weeks +-60, hours +-100, minutes +-3000, seconds +-90000 (int and float typed)",
                   "calendar": "days +-40 from every start date (all months: gregorian, 360day; Feb and Dec: 365day, 366day), hours +-60, seconds +-90000",
                   "week": "gregorian: days +-20, weeks +-60, hours +-100 from every week; other modes: days +-20 from weeks 50-53",
+                  "decimal forms": "hh,ii with fraction .25/.75 and hh:mm,nn with fraction .5 (thorough: also .5/.25/.875), every date and offset, "
+                                   "hours +-60, minutes +-3000, seconds +-90000, days +-40 on ordinal dates in all modes; calendar dates of Jan, Feb, Dec and week dates "
+                                   "of weeks 1, 52, 53 with hours / minutes in gregorian (thorough: every date, representation and unit in all modes)",
                   "multi-unit": "gregorian: days +-1, hours +-25, minutes +-61, seconds +-61 together (ordinal: every day; calendar: Jan, Feb, Mar, Dec; week dates: thorough tier only)"},
         "thorough": {"calendar": "days +-400 from every start date in all 4 modes", "week": "all modes as gregorian"}},
-    "outside": ["fractional seconds and decimal hour/minute forms (floating point; 'within a microsecond' is not decided by this technique)",
+    "outside": ["fractional seconds; decimal hour/minute forms with fractions other than the dyadic ones listed (the decimal forms are "
+                "decided in exact rational arithmetic - SymRatio proxies - which is what the library's float arithmetic equals up to "
+                "rounding; 'within a microsecond' is then checked by the concrete replay with that tolerance)",
                 "durations beyond the stated carry bounds", "truncated points"],
     "assumptions": ["the TimePoint state is built directly (slots) and constrained by the oracle's validity predicate; the constructor is C09's subject",
                     "get_days_in_year_range runs as its closed form, discharged by C03's L0 obligation (re-checked there on every run)"],
 }
-REQUIRED_SCENARIOS = {"all": ["24:00 input", "negative amount", "zero amount", "negative year",
+REQUIRED_SCENARIOS = {"all": ["decimal form, backwards over midnight", "decimal form, forwards", "24:00 input", "negative amount", "zero amount", "negative year",
                               "forward over a year end (ordinal)", "backward over a year start (ordinal)",
                               "starts on 29 feb", "forward over a month end", "backward over a month start",
                               "starts in week 53"]}
